@@ -57,8 +57,8 @@ func (s *spyStatser) Report(name string, value *uint64, tags gostatsd.Tags) {
 	v := atomic.LoadUint64(value)
 	s.mu.Lock()
 	s.vals[name] = float64(v)
-	if name == "parser.metrics_received" {
-		s.flushes++ // first call of a RunMetricsContext round
+	if name == "parser.metrics_received" || name == "receiver.datagrams_received" {
+		s.flushes++ // first call of a RunMetricsContext round (a spy serves one parser or one receiver)
 	}
 	s.mu.Unlock()
 }
@@ -1128,9 +1128,12 @@ func TestCheck(t *testing.T) {
 	sequential(r)
 	t1 := time.Now()
 	stress(r)
+	t2 := time.Now()
+	receiverVariant(r)
 	// measured cost per part, summed over the shards (evidence only)
 	r.Extra("sequential_s", t1.Sub(t0).Seconds())
-	r.Extra("stress_s", time.Since(t1).Seconds())
+	r.Extra("stress_s", t2.Sub(t1).Seconds())
+	r.Extra("receiver_s", time.Since(t2).Seconds())
 }
 
 func replay(t *testing.T, r *mon.Run, p []byte) {
